@@ -7,25 +7,25 @@ From BV Require Import Base.Prelude Model.Block Model.ForkDB Model.Forkable Spec
 Local Open Scope N_scope.
 
 Definition c01_moving_thm_scope (k : fk_case) : bool :=
-  match k_mode k, c_fail_at (k_cfg k) with
-  | LExcl r0, None => negb (c_incl (k_cfg k)) && filt_nu k && moving_scope_b r0 (k_hist k)
-  | _, _ => false
+  match k_mode k with
+  | LExcl r0 => negb (c_incl (k_cfg k)) && filt_nu k && moving_scope_b r0 (k_hist k)
+  | _ => false
   end.
 
 Definition c02_thm_scope (k : fk_case) : bool :=
-  match k_mode k, c_fail_at (k_cfg k) with
-  | LExcl r0, None => negb (c_incl (k_cfg k)) && filt_nu k && filt_irr k && moving_scope_b r0 (k_hist k)
-  | _, _ => false
+  match k_mode k with
+  | LExcl r0 => negb (c_incl (k_cfg k)) && filt_nu k && filt_irr k && moving_scope_b r0 (k_hist k)
+  | _ => false
   end.
 
 Definition c02_thm_scope_inline : fk_case -> bool :=
-  (fun k => match k_mode k, c_fail_at (k_cfg k) with
-            | LExcl r0, None =>
+  (fun k => match k_mode k with
+            | LExcl r0 =>
                 negb (c_incl (k_cfg k)) && filt_nu k && filt_irr k &&
                 (BV.Spec.Universe.wf_b (k_hist k) && BV.Spec.Universe.lib_ok_b (LExcl r0) (k_hist k) && negb (ri r0 =? 0) &&
                  forallb (fun b => negb (bparent b =? 0) && (if bparent b =? ri r0 then rn r0 <? bnum b else true) &&
                                    (if bid b =? ri r0 then bnum b =? rn r0 else true)) (k_hist k))
-            | _, _ => false end).
+            | _ => false end).
 
 Lemma c02_thm_scope_inline_eq k : c02_thm_scope_inline k = c02_thm_scope k.
 Proof. reflexivity. Qed.
